@@ -183,6 +183,26 @@ def single_assign(stmt):
     return None, None
 
 
+def index_and_point(stmts, len_target, node):
+    """two independent assignments, in either order:  <i> = len(<container>.vertices)   and   <p> = <point expression>
+    -> (index name, point name, point expression node)"""
+    expect(len(stmts) == 2, node, "expected the pair `i = len(...vertices)` / `p = <point>`")
+    idx = pt = None
+    for st in stmts:
+        t, v = single_assign(st)
+        expect(isinstance(t, ast.Name), st, "expected a plain assignment")
+        if isinstance(v, ast.Call) and T.dotted(v.func) == "len" and len(v.args) == 1 and T.dotted(v.args[0]) == len_target:
+            expect(idx is None, st, "two index assignments")
+            idx = t.id
+        else:
+            expect(pt is None, st, "two point assignments")
+            pt = (t.id, v)
+    expect(idx is not None and pt is not None, node, "expected the pair `i = len(...vertices)` / `p = <point>`")
+    expect(not any(isinstance(n, ast.Name) and n.id == idx for n in ast.walk(pt[1])), node,
+           "the new point is computed from the index of the vertex being created")
+    return idx, pt[0], pt[1]
+
+
 def literal_loop(stmt, env, item):
     """`for x in [t1, t2, ...]: <body uses x once>` -> (list of element nodes, body statements, loop var)"""
     expect(isinstance(stmt, ast.For) and isinstance(stmt.target, ast.Name) and isinstance(stmt.iter, ast.List)
@@ -223,16 +243,9 @@ def tr_split_edge(tree, D):
     expect(isinstance(v, ast.Subscript) and is_mesh_attr(v.value, env, "edges") and T.dotted(v.slice) == eind, b[0],
            "first statement is not `A,B = <mesh>.edges[edge_ind]`")
     env.ints.update({a: "A", bb: "B"})
-    t, v = single_assign(b[1])
-    expect(isinstance(t, ast.Name) and isinstance(v, ast.Call) and T.dotted(v.func) == "len"
-           and is_mesh_attr(v.args[0], env, "vertices"), b[1], "expected `C = len(<mesh>.vertices)`")
-    env.ints[t.id] = "C"
-    t, v = single_assign(b[2])
-    expect(isinstance(t, ast.Name), b[2], "expected `pC = ...`")
-    e2 = env.copy()
-    del e2.ints[[k for k, x in env.ints.items() if x == "C"][0]]  # the new point may only use A and B
-    D["se_mid"] = ("{P} (O : pops P) (pA pB : P) : P", ptexpr(v, e2))
-    pc = t.id
+    cname, pc, pv = index_and_point(b[1:3], mesh + ".vertices", b[1])
+    D["se_mid"] = ("{P} (O : pops P) (pA pB : P) : P", ptexpr(pv, env))
+    env.ints[cname] = "C"
     c = is_method_call(b[3], mesh + ".vertices.append", 1)
     expect(c is not None and T.dotted(c.args[0]) == pc, b[3], "expected `<mesh>.vertices.append(pC)`")
     t, v = single_assign(b[4])
@@ -315,10 +328,8 @@ def tr_fan(tree, D):
     f = t.id
     env.lists[f] = "f"
     env.ptlists[f] = "ps"
-    # barycentre
-    t, v = single_assign(b[1])
-    expect(isinstance(t, ast.Name), b[1], "expected `pV = ...`")
-    pv = t.id
+    # barycentre and its index (independent, either order)
+    iname, pv, v = index_and_point(b[1:3], M + ".vertices", b[1])
     e2 = env.copy()
     # len(f) inside the point expression is the parameter nf
     class R(ast.NodeTransformer):
@@ -330,10 +341,7 @@ def tr_fan(tree, D):
     v2 = R().visit(ast.parse(ast.unparse(v), mode="eval").body)
     e2.ints["@nf"] = "nf"
     D["fan_bary"] = ("{P} (O : pops P) (ps : list P) (nf : Z) : P", ptexpr(v2, e2))
-    t, v = single_assign(b[2])
-    expect(isinstance(t, ast.Name) and isinstance(v, ast.Call) and T.dotted(v.func) == "len"
-           and is_mesh_attr(v.args[0], env, "vertices"), b[2], "expected `iV = len(self.mesh.vertices)`")
-    env.ints[t.id] = "iV"
+    env.ints[iname] = "iV"
     c = is_method_call(b[3], M + ".vertices.append", 1)
     expect(c is not None and T.dotted(c.args[0]) == pv, b[3], "expected `self.mesh.vertices.append(pV)`")
     t, v = single_assign(b[4])
@@ -410,14 +418,8 @@ def dict_init(stmt):
 
 def edge_cut_body(body, env, new, M, half, prefix, D, extra_edges):
     """C = len(new.vertices); pC = ...; new.vertices.append(pC); half[key] = C  [; new.edges += [...]]"""
-    t, v = single_assign(body[0])
-    expect(isinstance(t, ast.Name) and isinstance(v, ast.Call) and T.dotted(v.func) == "len"
-           and T.dotted(v.args[0]) == new + ".vertices", body[0], "expected `C = len(newMeshData.vertices)`")
-    cname = t.id
-    t, v = single_assign(body[1])
-    expect(isinstance(t, ast.Name), body[1], "expected `pC = ...`")
-    D[prefix + "_mid"] = ("{P} (O : pops P) (pA pB : P) : P", ptexpr(v, env))
-    pc = t.id
+    cname, pc, pv = index_and_point(body[0:2], new + ".vertices", body[0])
+    D[prefix + "_mid"] = ("{P} (O : pops P) (pA pB : P) : P", ptexpr(pv, env))
     c = is_method_call(body[2], new + ".vertices.append", 1)
     expect(c is not None and T.dotted(c.args[0]) == pc, body[2], "expected `newMeshData.vertices.append(pC)`")
     t, v = single_assign(body[3])
@@ -716,14 +718,9 @@ def tr_cell_fan(tree, D):
         and T.dotted(v.elt.slice) == T.dotted(v.generators[0].target)
     expect(ok, b[2], "expected `pA,pB,pC,pD = (self.mesh.vertices[_v] for _v in (A,B,C,D))`")
     env.pts.update(dict(zip(pn, ["pA", "pB", "pC", "pD"])))
-    t, v = single_assign(b[3])
-    expect(isinstance(t, ast.Name), b[3], "expected `bary = ...`")
+    iname, bary, v = index_and_point(b[3:5], M + ".vertices", b[3])
     D["cf_bary"] = ("{P} (O : pops P) (pA pB pC pD : P) : P", ptexpr(v, env))
-    bary = t.id
-    t, v = single_assign(b[4])
-    expect(isinstance(t, ast.Name) and isinstance(v, ast.Call) and T.dotted(v.func) == "len"
-           and T.dotted(v.args[0]) == M + ".vertices", b[4], "expected `ibary = len(self.mesh.vertices)`")
-    env.ints[t.id] = "ib"
+    env.ints[iname] = "ib"
     c = is_method_call(b[5], M + ".vertices.append", 1)
     expect(c is not None and T.dotted(c.args[0]) == bary, b[5], "expected `self.mesh.vertices.append(bary)`")
     t, v = single_assign(b[6])
@@ -755,17 +752,11 @@ def tr_face_centre(tree, D):
     names = unpack_names(t, 3, b[2])
     expect(T.dotted(v) == f, b[2], "expected `A,B,C = f`")
     env.ints.update(dict(zip(names, "ABC")))
-    t, v = single_assign(b[3])
-    expect(isinstance(t, ast.Name) and isinstance(v, ast.Call) and T.dotted(v.func) == "len"
-           and T.dotted(v.args[0]) == M + ".vertices", b[3], "expected `icenter = len(self.mesh.vertices)`")
-    env.ints[t.id] = "ic"
-    ic = t.id
-    t, v = single_assign(b[4])
-    expect(isinstance(t, ast.Name), b[4], "expected `pcenter = ...`")
+    ic, pc, v = index_and_point(b[3:5], M + ".vertices", b[3])
+    env.ints[ic] = "ic"
     e2 = Env(meshes=[M])
     e2.ptlists[f] = "ps"
     D["fc_bary"] = ("{P} (O : pops P) (ps : list P) : P", ptexpr(v, e2))
-    pc = t.id
     c = is_method_call(b[5], M + ".vertices.append", 1)
     expect(c is not None and T.dotted(c.args[0]) == pc, b[5], "expected `self.mesh.vertices.append(pcenter)`")
     t, v = single_assign(b[6])
